@@ -256,12 +256,13 @@ def arr_np(a):
 class Snap:
     """Plain-data structural snapshot of a world."""
 
-    __slots__ = ("subs", "envs", "conts", "handles", "order", "uidmap")
+    __slots__ = ("subs", "envs", "conts", "handles", "order", "uidmap", "merge_group")
 
 
 def snapshot(w: World) -> Snap:
     sn = Snap()
     sn.order = list(w.subs)
+    sn.merge_group = dict(w.merge_group)  # which handles were merged so far (program knowledge at this moment)
     sn.subs = {}
     for n in w.subs:
         s = w.objs[n]
